@@ -47,6 +47,18 @@ fn injSum(v: []i32) -> i32 {
 
 fn injTakeMap(m: map[str]i32) -> i32 {
     return 1;
+}
+
+fn injRes0() -> str ! i32 {
+    return "never"!;
+}
+
+fn (s: &InjS) injTry() -> str ! i32 {
+    return s.A;
+}
+
+fn (s: &InjS) injTry1(k: i32) -> str ! i32 {
+    return s.A + k;
 }`
 
 var c03Rules = []c03Rule{
@@ -135,7 +147,16 @@ var c03Rules = []c03Rule{
 		"{\n    let is := \"x\";\n    is();\n}"}},
 	{name: "unhandled-result", stmt: []string{
 		"{\n    let ir: i32 = injRes(1);\n}",
-		"{\n    let ir := injRes(1) + 1;\n}"}},
+		"{\n    let ir := injRes(1) + 1;\n}",
+		"{\n    injRes(1);\n}",
+		"{\n    let ir := injRes(1);\n}",
+		"{\n    injRes0();\n}",
+		"{\n    let ir := injRes0();\n}",
+		"{\n    let ir: i32 = injRes0();\n}",
+		"{\n    let ih: InjS = { .A = 1, .B = 2 };\n    ih.injTry();\n}",
+		"{\n    let ih: InjS = { .A = 1, .B = 2 };\n    let ir := ih.injTry();\n}",
+		"{\n    let ih: InjS = { .A = 1, .B = 2 };\n    let ir := ih.injTry1(3);\n}",
+		"{\n    let ic := fn() -> str ! i32 {\n        return 1;\n    };\n    ic();\n}"}},
 	{name: "error-return-from-non-result-function", decls: []string{
 		"fn injBad() -> i32 {\n    return \"e\"!;\n}",
 		"fn injBad() {\n    return \"e\"!;\n}"}},
